@@ -53,7 +53,7 @@ func init() {
 			if tier == "thorough" {
 				cov["grid_points"] = len(c08Grid())
 				cov["replicas_per_grid_point"] = c08Replicas
-				cov["grid"] = "B∈{1,2,3,5,8}: R∈[0,3B+1] × s∈[0,R+2] × n∈{0,1,2,B-1,B,B+1,R,R+1}; B=32: R,s thinned to multiples of B ±1 and the ends; × 16 families × 2 drain modes (one index in 7001 is a big case instead)"
+				cov["grid"] = "B∈{1,2,3,5,8}: R∈[0,3B+1] × s∈[0,R+2] × n∈{0,1,2,B-1,B,B+1,R,R+1}; B=32: R,s thinned to multiples of B ±1 and the ends; × 17 families × 2 drain modes (one index in 7001 is a big case instead)"
 			}
 			return ""
 		},
@@ -63,7 +63,7 @@ func init() {
 // thorough: every grid point is executed with this many differently seeded stores/configs
 const c08Replicas = 16
 
-var c08Families = []string{"plain", "plain-filtered", "ordered", "ordered-ties", "aggregate", "aggregate-ordered", "delete", "delete-filtered", "aggregate-all", "ordered-2keys", "mget", "plain-sparse", "delete-sparse", "ordered-sparse", "alias-filtered", "delete-mget"}
+var c08Families = []string{"plain", "plain-filtered", "ordered", "ordered-ties", "aggregate", "aggregate-ordered", "delete", "delete-filtered", "aggregate-all", "ordered-2keys", "mget", "plain-sparse", "delete-sparse", "ordered-sparse", "alias-filtered", "delete-mget", "aggregate-ordered-keyexpr"}
 
 type gridPt struct {
 	fam  int
@@ -192,6 +192,25 @@ func c08Build(r *Rng, p gridPt) *Scenario {
 			lc.Base = "select value as g, count(1) as c where key ^= 'k' group by g order by g desc"
 			lc.OrderCols = []int{0}
 		}
+	case "aggregate-ordered-keyexpr":
+		// groups derived from the key by an expression that is not monotone in the key:
+		// the groups are first met in an order that is not their sorted order
+		perm := make([]int, p.r)
+		for i := range perm {
+			perm[i] = i
+		}
+		shuffle(r, perm)
+		idx := 0
+		for rep := 0; rep < 2; rep++ {
+			for g := 0; g < p.r; g++ {
+				if rep == 0 || r.Chance(0.4) {
+					init = append(init, KV{fmt.Sprintf("k%06d_%05d", idx, perm[g]), pick(r, valuePoolInt)})
+					idx++
+				}
+			}
+		}
+		lc.Base = "select substr(key, 8, 5) as g, count(1) as c where key ^= 'k' group by g order by g" + pick(r, []string{"", " asc", " desc"})
+		lc.OrderCols = []int{0}
 	case "aggregate-all":
 		// no GROUP BY: the unlimited result is one row (none when nothing passes)
 		for i := 0; i < p.r; i++ {
